@@ -104,7 +104,7 @@ SLOTS = [("pid_23", None, None), ("pid_5", "xpn_2", None), ("pid_3", "cx_4", "hd
 
 def _seg_chunk(args):
     import_hl7apy()
-    from hl7apy.core import Segment
+    from hl7apy.core import Segment, Message
     from hl7apy.parser import parse_segment
     v, fam, ecs, strings = args[:4]
     trunc = args[4] if len(args) > 4 else True
@@ -132,11 +132,21 @@ def _seg_chunk(args):
                     texts.append(seg.to_er7(ecd))
                     continue
                 else:
-                    x = getattr(seg, slot[0])
-                    for a in slot[1:]:
-                        if a:
-                            x = getattr(x, a)
-                    x.value = L.ST(val)
+                    # three ways of handing the datatype object over: leaf.value = obj; parent.<name> = obj; the latter
+                    # inside a message that has these delimiters as its own
+                    style = (n // len(SLOTS)) % 3
+                    if style == 2:
+                        msg = Message("ADT_A01", version=v, encoding_chars=dict(ecd))
+                        seg = msg.pid
+                        seg.pid_1 = "1"
+                    path = [a for a in slot if a]
+                    x = seg
+                    for a in path[:-1]:
+                        x = getattr(x, a)
+                    if style == 0:
+                        getattr(x, path[-1]).value = L.ST(val)
+                    else:
+                        setattr(x, path[-1], L.ST(val))
                 seg.pid_24 = "z"
                 texts.append(seg.to_er7(ecd))
             e["seg"] = cps(texts[0])
